@@ -333,31 +333,30 @@ example : ((createAgents (newModel World.empty ⟨[]⟩) 0 1 false 3 [.seq [7, 8
 theorem alive_copySet (w : World) (t : Target) (a : Aid) : alive (copySet w t) a = alive w a := by
   rfl
 
-/-- **A copy shares nothing with the registry.**  After every history, `set.select()` without criteria / `copy.copy(set)`
-    (`copySet`) of any set — `model.agents`, a by-type set, a program-made set — yields a further program-made set that
-    shows (by iteration and by position) exactly the members of the original at that moment, and neither taking the copy
-    nor adding to / discarding from it afterwards changes any registry (nor who exists, who is held, who was removed,
-    nor any other program-made set).  So "`model.agents` contains exactly the agents created and not yet removed" keeps
-    holding however the program treats its copies. -/
-theorem C02_copy_of_a_set_shares_nothing (ops : List Op) (t : Target) (k : Nat) (b : Aid) :
+/-- **A copy shows exactly the members of the original at that moment.**  After every history, `set.select()` without
+    criteria / `copy.copy(set)` (`copySet`) of any set — `model.agents`, a by-type set, a program-made set — is a further
+    program-made set that shows, by iteration and by position, exactly the live members of the original in the original's
+    order (the constructor's de-duplication and liveness filter change nothing, because every set is duplicate-free after
+    every history), and it carries the generator of the same model.
+    (Review 3, M16: the former name "shares nothing" claimed more than a model without references can say — that the copy
+    and the original are different *storage* is true in the model by construction, every program-made set being its own list;
+    a copy that shares the member dictionary is caught by the correspondence tie and the oracle, see design.d/C02.md.) -/
+theorem C02_copy_shows_the_members_at_that_moment (ops : List Op) (t : Target) :
     let w := run World.empty ops
-    ((copySet w t).regs = w.regs ∧ (copySet w t).info = w.info ∧ (copySet w t).held = w.held ∧
-      (copySet w t).removedLog = w.removedLog ∧ (copySet w t).sets.take w.sets.length = w.sets) ∧
-    (members (copySet w t) (.set w.sets.length) = members w t ∧ itemsOf (copySet w t) (.set w.sets.length) = members w t) ∧
-    ((setAdd (copySet w t) k b).regs = w.regs ∧ (setDiscard (copySet w t) k b).regs = w.regs) := by
+    members (copySet w t) (.set w.sets.length) = members w t ∧ itemsOf (copySet w t) (.set w.sets.length) = members w t ∧
+    rawMembers (copySet w t) (.set w.sets.length) = members w t ∧
+    Target.model (copySet w t) (.set w.sets.length) = t.model w := by
   intro w
   have hnd : (members w t).Nodup := (C02_sets_nodup_all_histories ops t).filter _
+  have hf : (members w t).filter (alive w) = members w t := by simp [members]
+  have hraw : rawMembers (copySet w t) (.set w.sets.length) = members w t := by
+    have : rawMembers (copySet w t) (.set w.sets.length) = dedup ((members w t).filter (alive w)) := by
+      simp [rawMembers, copySet, mkSet]
+    rw [this, hf, dedup_of_nodup hnd]
   have hm : members (copySet w t) (.set w.sets.length) = members w t := by
     have hal : alive (copySet w t) = alive w := funext (alive_copySet w t)
-    have hraw : rawMembers (copySet w t) (.set w.sets.length) = dedup ((members w t).filter (alive w)) := by
-      simp [rawMembers, copySet, mkSet]
-    have hf : (members w t).filter (alive w) = members w t := by simp [members]
-    rw [members, hraw, hal, hf, dedup_of_nodup hnd, hf]
-  refine ⟨⟨rfl, rfl, rfl, rfl, by simp [copySet, mkSet]⟩, ⟨hm, hm⟩, ?_, ?_⟩
-  · simp only [setAdd]; split
-    · split <;> rfl
-    · rfl
-  · simp only [setDiscard]; split <;> rfl
+    rw [members, hraw, hal, hf]
+  exact ⟨hm, hm, hraw, by simp [Target.model, copySet, mkSet]⟩
 
 /-- non-vacuity: three agents, one removed; the copy of `model.agents` loses a member, `model.agents` does not -/
 example : let w := run World.empty [.newModel ⟨[]⟩, .create 0 0 true [], .create 0 1 false [], .create 0 0 false [], .remove 1]
